@@ -482,8 +482,9 @@ fn build_graph(n: usize, code: u32, shift: usize) -> (GG, Vec<petgraph::graph::N
 /// one graph shape: after one process call, later calls (and a first call on a different graph of
 /// the same size with the same processor) must not touch the allocator
 fn graph_case(n: usize, code: u32) -> Result<u64, Bad> {
-    let (mut g, ix) = build_graph(n, code, 0);
-    let (mut g2, ix2) = build_graph(n, code.rotate_left(3) & ((1u32 << (n * n)) - 1), 2);
+    // node kinds rotate with the shape so that every stock node appears in every position and size
+    let (mut g, ix) = build_graph(n, code, code as usize % 7);
+    let (mut g2, ix2) = build_graph(n, code.rotate_left(3) & ((1u32 << (n * n)) - 1), (code as usize / 7 + 2) % 7);
     let mut p = Processor::<GG>::with_capacity(n);
     let mut brackets = 0;
     let mut regrow: Option<Bad> = None;
